@@ -16,30 +16,6 @@ set_option linter.unusedSimpArgs false
 namespace Glom.Props.C05
 open Glom.C05
 
-/-- the text of the model's trace, as the list of its lines -/
-def traceLines (t : Tree) (errText : Nat → Str) (width : Nat) : List Str :=
-  splitLines (traceText (events t) errText t.err width).toList
-
-theorem traceText_toList (evs : List Ev) (errText : Nat → Str) (e width : Nat) :
-    (traceText evs errText e width).toList =
-      formatTrace (replay evs) errText e width ((replay evs).size + 2) 1 0 none true := by
-  simp [traceText]
-
-/-- the frame store of a well-formed tree can be rendered with the fuel `traceText` gives -/
-theorem c05_renderable (t : Tree) (hc : chainOk true t.root = true) :
-    Renderable (replay (events t)) ((replay (events t)).size + 2) 1 := by
-  apply renderable_tree t hc
-  · omega
-  · simp [Tree.root, Kids.size]; omega
-  · rw [(replay_frames t hc).1]; omega
-
-theorem frames_NoNL_spec (t : Tree) (hc : chainOk true t.root = true)
-    (hrepr : ∀ c, c ∈ callsOf (events t) → NoNL c.spec) (j : Nat) (f : Frame)
-    (hf : (replay (events t))[j]? = some f) : NoNL f.spec := by
-  rcases replay_frame_cases t hc j f hf with ⟨_, h, _⟩ | ⟨_, c, hcm, _, hs⟩
-  · rw [h]; intro c hc; simp at hc
-  · rw [← hs.1]; exact hrepr c hcm
-
 /-- **clause 2 of `checkC05` holds of the model's text**: the spec of every call the root error
     propagated through (`spine (callsOf evs) e`) is shown on a `Spec:` line, and these lines occur
     in evaluation order — for every well-formed tree, every width, every error texts.
@@ -50,7 +26,7 @@ theorem c05_text_clause2 (t : Tree) (hwf : t.wf = true) (errText : Nat → Str) 
   have hwf' := hwf
   simp only [Tree.wf, Bool.and_eq_true] at hwf'
   obtain ⟨hc, ho⟩ := hwf'
-  have hren := c05_renderable t hc
+  have hren := renderable_top t hc
   unfold clause2 traceLines
   rw [traceText_toList]
   -- the `Spec:` lines of the rendered rows are among the `Spec:` lines of the text, in order
@@ -75,31 +51,6 @@ theorem c05_text_clause2 (t : Tree) (hwf : t.wf = true) (errText : Nat → Str) 
 
 
 /-! ### clause 1 -/
-
-theorem unpack_root_head (t : Tree) (hwf : t.wf = true) :
-    ∃ r rest, unpack (replay (events t)) 1 = r :: rest ∧ r.frame = 1 := by
-  have hstart : startOK t.err 1 t.root 1 = true := by simp [startOK, Tree.root, segRes, Kids.startsChained]
-  rw [unpack_startOK t hwf 1 hstart]
-  have hne : (rowsAt 1 t.root 1).head?.map (·.frame) = some 1 := by
-    simp only [rowsAt, Tree.root, if_true, Kids.startsChained, Bool.false_eq_true, if_false]
-    cases lastHead none (1 + 1) t.kids <;> simp
-  have hfr := pushDown_frames (rowsAt 1 t.root 1)
-  cases hp : pushDown (rowsAt 1 t.root 1) with
-  | nil =>
-    rw [hp] at hfr
-    cases hr : rowsAt 1 t.root 1 with
-    | nil => rw [hr] at hne; simp at hne
-    | cons a l => rw [hr] at hfr; simp at hfr
-  | cons r rest =>
-    refine ⟨r, rest, rfl, ?_⟩
-    rw [hp] at hfr
-    cases hr : rowsAt 1 t.root 1 with
-    | nil => rw [hr] at hne; simp at hne
-    | cons a l =>
-      rw [hr] at hfr hne
-      simp only [List.map_cons, List.cons.injEq] at hfr
-      simp only [List.head?_cons, Option.map_some, Option.some.injEq] at hne
-      rw [hfr.1, hne]
 
 /-- **clause 1 of `checkC05` holds of the model's text**: the text begins with a `Target:` line that
     shows the root target.  Hypothesis: the root target's text has no line break. -/
@@ -154,13 +105,6 @@ theorem c05_text_clause1 (t : Tree) (hwf : t.wf = true) (errText : Nat → Str) 
 
 /-! ### clause 5 -/
 
-theorem frames_one_line (t : Tree) (hc : chainOk true t.root = true)
-    (hrepr : ∀ c, c ∈ callsOf (events t) → NoNL c.spec ∧ NoNL c.target) : FramesOneLine (replay (events t)) := by
-  intro j f hf
-  rcases replay_frame_cases t hc j f hf with ⟨_, h1, h2⟩ | ⟨_, c, hcm, _, hs⟩
-  · rw [h1, h2]; exact ⟨fun c hc => by simp at hc, fun c hc => by simp at hc⟩
-  · rw [← hs.1, ← hs.2.1]; exact hrepr c hcm
-
 /-- **clause 5 of `checkC05` holds of the model's text**: every `Spec:` line of nesting depth 0 shows
     a call that raised or a completed step of a chain a later step of which raised — nothing that
     returned normally is listed below the failing spec.
@@ -174,7 +118,7 @@ theorem c05_text_clause5 (t : Tree) (hwf : t.wf = true) (errText : Nat → Str) 
   simp only [Tree.wf, Bool.and_eq_true] at hwf'
   obtain ⟨hc, ho⟩ := hwf'
   have hop : onePath t.err t.root = true := by simpa [Tree.root, onePath] using ho
-  have hren := c05_renderable t hc
+  have hren := renderable_top t hc
   have hfs := frames_one_line t hc hrepr
   have hstart : startOK t.err 1 t.root 1 = true := by simp [startOK, Tree.root, segRes, Kids.startsChained]
   have hsz : 1 < 1 + t.root.size := by simp [Tree.root, Kids.size]; omega
@@ -215,5 +159,155 @@ theorem c05_text_clause5 (t : Tree) (hwf : t.wf = true) (errText : Nat → Str) 
       · rw [callsOf_events, callsK_length]; omega
       · intro c' hc'; rw [callsOf_events]; exact hc'
       · intro pd hpd; rw [chainedEnters_events]; exact hpd
+
+
+/-! ### clause 4 -/
+
+/-- **clause 4 of `checkC05` holds of the model's text**: for every call the root error propagated
+    through, every direct sub-evaluation that raised another error (a failed branch that was
+    caught) has its spec on a `Spec:` line, and the text of the error that ended it occurs in the
+    trace — also when the branch is a chain whose later step failed (the line of the failing step
+    is among the rows rendered from the head of its chain segment) and when the single failed
+    branch of the call is shown linearly below it.
+    Hypothesis: spec texts have no line break. -/
+theorem c05_text_clause4 (t : Tree) (hwf : t.wf = true) (errText : Nat → Str) (width : Nat)
+    (hrepr : ∀ c, c ∈ callsOf (events t) → NoNL c.spec) :
+    clause4 (callsOf (events t)) (spine (callsOf (events t)) t.err) errText t.err
+      (traceText (events t) errText t.err width).toList (traceLines t errText width) = true := by
+  have hwf' := hwf
+  simp only [Tree.wf, Bool.and_eq_true] at hwf'
+  obtain ⟨hc, ho⟩ := hwf'
+  have hren := renderable_top t hc
+  have hsub := SLT_sublist (replay (events t)) errText t.err width _ 1 0 none true hren
+    (fun p _ f hf => frames_NoNL_spec t hc hrepr _ f hf)
+  unfold clause4
+  simp only [List.all_eq_true, Bool.and_eq_true, List.any_eq_true]
+  intro c hcs b hbf
+  have hcc : c ∈ callsOf (events t) := (List.mem_filter.mp hcs).1
+  have hcr : c.result = some t.err := by
+    have := (List.mem_filter.mp hcs).2
+    simpa using this
+  obtain ⟨hbc, hbp⟩ := List.mem_filter.mp hbf
+  simp only [failedBranches, Bool.and_eq_true, beq_iff_eq] at hbp
+  obtain ⟨hbo, hbr⟩ := hbp
+  cases hbx : b.result with
+  | none => rw [hbx] at hbr; simp at hbr
+  | some x =>
+    rw [hbx] at hbr
+    have hxe : x ≠ t.err := by simpa using hbr
+    obtain ⟨⟨pb, hpb, hpbf⟩, ⟨pe, hpe, hpee⟩⟩ := failed_branch_shown t hwf _ hren c b x hcc hcr hbc hbo hbx
+    constructor
+    · -- its `Spec:` line
+      have hbk : b ∈ callsK none 1 t.root := by rw [← callsOf_events]; exact hbc
+      obtain ⟨f, hf, hs⟩ := call_frameAt t.root none 0 none 1 b hbk
+      have hidx : 1 ≤ b.idx := callsK_idx_ge t.root none 1 b hbk
+      have hfs : (replay (events t))[pb.2.frame]? = some f := by
+        rw [hpbf, (replay_frames t hc).2 b.idx hidx]; exact hf
+      refine ⟨specShown width f pb.1, ?_, ?_⟩
+      · unfold traceLines
+        rw [traceText_toList]
+        apply hsub.subset
+        exact List.mem_filterMap.mpr ⟨pb, hpb, by simp [specOfShown, hfs]⟩
+      · rw [hs.1, hs.2.2.2]
+        exact showsValue_formatValue _ _ _
+    · -- the error that ended it
+      simp only []
+      rw [traceText_toList]
+      exact InfAt_isInfix (err_shown (replay (events t)) errText t.err width _ 1 0 none true pe x hren hpe hpee hxe)
+
+
+/-! ### the clauses together -/
+
+/-- **the lift, partial**: the text the model renders for a well-formed evaluation tree satisfies
+    clauses 1, 2, 4 and 5 of `checkC05` — at every width, for all spec / target texts without line
+    breaks and all error texts none of whose lines is read as a `Spec:` line.  What remains is
+    clause 3 (`clause3 inner lines`: the checker's reading of the target in force at the innermost
+    failing spec's line), see below. -/
+theorem c05_text_lift_partial (t : Tree) (hwf : t.wf = true) (errText : Nat → Str) (width : Nat)
+    (hrepr : ∀ c, c ∈ callsOf (events t) → NoNL c.spec ∧ NoNL c.target) (herr : ErrLabelFree errText) :
+    ∃ inner, (spine (callsOf (events t)) t.err).getLast? = some inner ∧
+      clausesC05 (events t) errText t.err (traceText (events t) errText t.err width) =
+        [true, true, clause3 inner (traceLines t errText width), true, true] := by
+  have hroot : ∃ root, (callsOf (events t)).head? = some root := by
+    rw [callsOf_events]; simp [callsK, Tree.root]
+  obtain ⟨root, hroot⟩ := hroot
+  have hrm : root ∈ callsOf (events t) := List.mem_of_mem_head? hroot
+  have hspne : spine (callsOf (events t)) t.err ≠ [] := by
+    intro h0
+    have : (spine (callsOf (events t)) t.err).map (·.idx) = [] := by rw [h0]; rfl
+    simp only [Tree.wf, Bool.and_eq_true] at hwf
+    rw [spine_events t hwf.2] at this
+    simp at this
+  obtain ⟨inner, hinner⟩ : ∃ inner, (spine (callsOf (events t)) t.err).getLast? = some inner :=
+    ⟨_, List.getLast?_eq_some_getLast hspne⟩
+  refine ⟨inner, hinner, ?_⟩
+  unfold clausesC05
+  simp only [hroot, hinner]
+  have h1 := c05_text_clause1 t hwf errText width root hroot (hrepr root hrm).2
+  have h2 := c05_text_clause2 t hwf errText width (fun c hc => (hrepr c hc).1)
+  have h4 := c05_text_clause4 t hwf errText width (fun c hc => (hrepr c hc).1)
+  have h5 := c05_text_clause5 t hwf errText width hrepr herr
+  unfold traceLines at h1 h2 h4 h5
+  rw [h1, h2, h4, h5]
+  rfl
+
+/-- … so the model's text satisfies `checkC05` as soon as it satisfies clause 3 -/
+theorem c05_text_check_of_clause3 (t : Tree) (hwf : t.wf = true) (errText : Nat → Str) (width : Nat)
+    (hrepr : ∀ c, c ∈ callsOf (events t) → NoNL c.spec ∧ NoNL c.target) (herr : ErrLabelFree errText)
+    (h3 : ∀ inner, (spine (callsOf (events t)) t.err).getLast? = some inner →
+      clause3 inner (traceLines t errText width) = true) :
+    checkC05 (events t) errText t.err (traceText (events t) errText t.err width) = true := by
+  obtain ⟨inner, hi, hcl⟩ := c05_text_lift_partial t hwf errText width hrepr herr
+  unfold checkC05
+  rw [hcl, h3 inner hi]
+  rfl
+
+/-! ### the hypotheses are needed -/
+
+private def ii (s t : String) : Info := ⟨s.toList, t.toList, 0, none, none⟩
+
+/-- a spec whose text has a line break: the line shows only its first line -/
+def nlTree : Tree := ⟨ii "a\nb" "{}", .nil, 1⟩
+
+theorem c05_text_needs_one_line :
+    nlTree.wf = true ∧
+    clausesC05 (events nlTree) (fun _ => "E".toList) 1 (traceText (events nlTree) (fun _ => "E".toList) 1 80) =
+      [true, false, false, true, false] := by
+  decide +kernel
+
+/-- `glom({}, Coalesce('x'))` (Props/C05Spine `oneBranchTree`) where the text of the caught error has
+    a line that reads as a `Spec:` line of the trace -/
+def labelErrTree : Tree := ⟨ii "Coalesce('x')" "{}", .cons false (ii "'x'" "{}") .nil (some 1) .nil, 2⟩
+
+theorem c05_text_needs_label_free :
+    labelErrTree.wf = true ∧
+    clausesC05 (events labelErrTree) (fun e => if e = 1 then "E: x\n - Spec: zzz".toList else "F".toList) 2
+      (traceText (events labelErrTree) (fun e => if e = 1 then "E: x\n - Spec: zzz".toList else "F".toList) 2 80) =
+      [true, true, true, true, false] := by
+  decide +kernel
+
+/-! ### non-vacuity -/
+
+/-- `glom({'a': 1}, ('a', Coalesce('x', ('b', 'c'))))` (Props/C05Spine `exTree`): the hypotheses hold and
+    so does the whole check, clause 3 included -/
+def exTree2 : Tree :=
+  ⟨ii "('a', Coalesce('x', ('b', 'c')))" "{'a': 1}",
+   .cons false (ii "'a'" "{'a': 1}") .nil none
+     (.cons true ⟨"Coalesce('x', ('b', 'c'))".toList, "1".toList, 1, none, none⟩
+       (.cons false ⟨"'x'".toList, "1".toList, 1, none, none⟩ .nil (some 1)
+         (.cons false ⟨"('b', 'c')".toList, "1".toList, 1, none, none⟩
+           (.cons false ⟨"'b'".toList, "1".toList, 1, none, none⟩ .nil none
+             (.cons true ⟨"'c'".toList, "1".toList, 1, none, none⟩ .nil (some 2) .nil))
+           (some 2) .nil))
+       (some 3) .nil),
+   3⟩
+
+example : exTree2.wf = true := by decide
+example : clausesC05 (events exTree2) (fun e => ("E" ++ toString e).toList) 3
+    (traceText (events exTree2) (fun e => ("E" ++ toString e).toList) 3 60) = [true, true, true, true, true] := by
+  decide +kernel
+example : traceText (events exTree2) (fun e => ("E" ++ toString e).toList) 3 60 =
+    " - Target: {'a': 1}\n - Spec: ('a', Coalesce('x', ('b', 'c')))\n - Spec: 'a'\n - Target: 1\n + Spec: Coalesce('x', ('b', 'c'))\n |\\ Spec: 'x'\n |X E1\n |\\ Spec: ('b', 'c')\n || Spec: 'b'\n || Spec: 'c'\n |X E2" := by
+  decide +kernel
 
 end Glom.Props.C05
